@@ -40,9 +40,14 @@ def all_selections(nms):
         yield frozenset(n for n, b in zip(nms, bits) if b)
 
 
-def check_export(which, model, text, out):
+def check_export(which, model, text, out, selections=None):
     nms = build.names(model)
-    valid = set(semantics.configs(model))
+    if selections is not None:
+        sel_list = [frozenset(x) for x in selections]
+        valid = {x for x in sel_list if semantics.valid(model, x)}
+    else:
+        sel_list = None
+        valid = set(semantics.configs(model))
     try:
         if which == "splot":
             root, clauses = interp.parse_sxfm(text)
@@ -59,7 +64,7 @@ def check_export(which, model, text, out):
         if missing:
             out.append((f"C10.{which}.feature-missing", f"{missing[:5]}"))
         wrong_accept = wrong_reject = None
-        for sel in all_selections(nms):
+        for sel in (sel_list if sel_list is not None else all_selections(nms)):
             a = accepts(sel)
             if a and sel not in valid and wrong_accept is None:
                 wrong_accept = sorted(sel)
@@ -77,17 +82,24 @@ def check(case):
     from flamapy.metamodels.fm_metamodel.transformations import SPLOTWriter
     from flamapy.metamodels.fm_metamodel.transformations.pl_writer import PLWriter
     out = []
+    model = case["model"] if "selections" in case else case
     for which, cls in (("splot", SPLOTWriter), ("pl", PLWriter)):
-        fm = build.build(case)
+        if "selections" in case and which == "pl" and len(build.names(model)) > 15:
+            continue      # the propositional export spells a cardinality group out combination by combination
+        fm = build.build(model)
         text = lib(lambda: cls(None, fm).transform())
         if isinstance(text, Raised):
             out.append((f"C10.{which}.writer-raised:{text.label}", text.text))
             continue
-        check_export(which, case, text, out)
+        from vf.runner import _deep
+        with _deep():        # the interpreter walks long operator chains recursively (harness side only)
+            check_export(which, model, text, out, case.get("selections") if "selections" in case else None)
     return out
 
 
 def nontrivial(case):
+    if "selections" in case:
+        return True
     if _bool.structure_nontrivial(case):
         return True
     for c in case["ctcs"]:
@@ -97,6 +109,10 @@ def nontrivial(case):
 
 
 def classes(case):
+    if "selections" in case:
+        r = next(r for r, _ in build.iter_rels(case["model"]["root"]) if len(r["children"]) >= 10)
+        return {"wide-group", "bounds:text-order-differs" if str(r["min"]) > str(r["max"]) else "bounds:plain",
+                "pl-too" if len(build.names(case["model"])) <= 15 else "splot-only"}
     out = _bool.structure_classes(case)
     for c in case["ctcs"]:
         for o in set(logic.ops_of(c["ast"])):
@@ -107,6 +123,9 @@ def classes(case):
 
 
 SUBS = [
+    Sub("wide-groups", check, gen=lambda tier: st.one_of(_bool.wide_group_cases(max_members=24), _bool.wide_group_cases(max_members=10)),
+        nontrivial=nontrivial, classes=classes, n={"quick": 16, "thorough": 500},
+        essential=["bounds:text-order-differs", "pl-too"]),
     Sub("constraint-shapes", check, enum=_bool.enum_constraint_shapes, nontrivial=nontrivial, classes=classes,
         exhaustive=False),
     Sub("exports", check, gen=lambda tier: S.model_specs(PROFILE, 1, 9), nontrivial=nontrivial, classes=classes,
